@@ -1,34 +1,49 @@
 #!/usr/bin/env python3
-"""Runs every check against every confirmed seeded change (applied to /repo, then reverted) and files the
-seeds under /verif/seeded/<id>/ with meta.json. Usage: seed_matrix.py [dir ...]  (default /tmp/seeds /tmp/seeds2; /verif/seeded itself may be given to re-run the stored seeds)"""
-import os, sys, json, subprocess, shutil, re
-SRCS = sys.argv[1:] or ['/tmp/seeds', '/tmp/seeds2']
+"""Runs every check against every confirmed seeded change and files the seeds under /verif/seeded/<id>/ with
+meta.json and MATRIX.md.  Each seed is applied to its own scratch COPY of /repo's sources (checks are pointed at
+it with VERIF_REPO), so /repo itself is never modified and seeds are processed in parallel.
+Usage: seed_matrix.py [dir ...]   (default /tmp/seeds /tmp/seeds2; /verif/seeded may be given to re-run the stored
+seeds - their confirm.json travels with them)."""
+import os, sys, json, subprocess, shutil, re, tempfile
+from multiprocessing import Pool
+SRCS = [a for a in sys.argv[1:] if not a.startswith('-')] or ['/tmp/seeds', '/tmp/seeds2']
 VERIF = '/verif'
+REPO = '/repo'
 props = [json.loads(l)['id'] for l in open(VERIF + '/properties.jsonl')]
 claimed = [c['property_id'] for c in json.load(open(VERIF + '/MANIFEST.json'))['checks']]
-head = subprocess.check_output(['git', '-C', '/repo', 'rev-parse', '--short', 'HEAD'], text=True).strip()
-rows = []
+head = subprocess.check_output(['git', '-C', REPO, 'rev-parse', '--short', 'HEAD'], text=True).strip()
 SKIP = {'C06A': 'superseded by C06A2 (the line it edits was repaired in /repo)', 'C11A': 'superseded by C11A2', 'C13A': 'superseded by C13A2', 'C14B': 'superseded by C14B2'}
-for name, d in sorted((n, os.path.join(S, n)) for S in SRCS if os.path.isdir(S) for n in os.listdir(S)):
-    if not os.path.isdir(d) or not os.path.exists(os.path.join(d, 'confirm.json')):
-        continue
-    if name in SKIP:
-        continue
+
+
+def one(arg):
+    name, d = arg
     conf = json.load(open(os.path.join(d, 'confirm.json')))
     prop = name[:3]
-    subprocess.run(['git', '-C', '/repo', 'reset', '-q']); subprocess.run(['git', '-C', '/repo', 'checkout', '--', '.'])
-    r = subprocess.run(['git', '-C', '/repo', 'apply', os.path.join(d, 'patch.diff')], capture_output=True)
-    if r.returncode != 0:
-        r = subprocess.run(['git', '-C', '/repo', 'apply', '-C1', os.path.join(d, 'patch.diff')], capture_output=True)
-    if r.returncode != 0:
-        print(name, 'PATCH DOES NOT APPLY'); continue
-    diff = subprocess.check_output(['git', '-C', '/repo', 'diff'], text=True)
-    results = {}
-    for c in claimed:
-        p = subprocess.run([VERIF + '/check', c], capture_output=True, text=True)
-        lines = [l for l in p.stdout.splitlines() if re.match(r'^/.*: \[', l)]
-        results[c] = {'rc': p.returncode, 'reports': [l[:300] for l in lines][:6]}
-    subprocess.run(['git', '-C', '/repo', 'reset', '-q']); subprocess.run(['git', '-C', '/repo', 'checkout', '--', '.'])
+    tmp = tempfile.mkdtemp(prefix='verif-seed-')
+    try:
+        dst = os.path.join(tmp, 'repo')
+        os.makedirs(dst)
+        for sub in ('src', 'include', 'test', 'CMakeLists.txt'):
+            s = os.path.join(REPO, sub)
+            if os.path.isdir(s):
+                shutil.copytree(s, os.path.join(dst, sub))
+            elif os.path.exists(s):
+                shutil.copy(s, os.path.join(dst, sub))
+        subprocess.run(['git', 'init', '-q', dst]); subprocess.run(['git', '-C', dst, 'add', '-A']); subprocess.run(['git', '-C', dst, '-c', 'user.email=a@b', '-c', 'user.name=x', 'commit', '-qm', 'base'])
+        r = subprocess.run(['git', '-C', dst, 'apply', os.path.join(d, 'patch.diff')], capture_output=True)
+        if r.returncode != 0:
+            r = subprocess.run(['git', '-C', dst, 'apply', '-C1', os.path.join(d, 'patch.diff')], capture_output=True)
+        if r.returncode != 0:
+            return (name, prop, None, [], [], 'PATCH DOES NOT APPLY')
+        diff = subprocess.check_output(['git', '-C', dst, 'diff'], text=True)
+        results = {}
+        env = dict(os.environ, VERIF_REPO=dst, VERIF_NO_EVIDENCE='1')
+        for c in claimed:
+            p = subprocess.run([VERIF + '/check', c], capture_output=True, text=True, env=env)
+            lines = [l.replace(dst, '/repo') for l in p.stdout.splitlines() if re.match(r'^/.*: \[', l)]
+            results[c] = {'rc': p.returncode, 'reports': [l[:300] for l in lines][:6]}
+    finally:
+        shutil.rmtree(tmp, ignore_errors=True)
     caught_by = [c for c, v in results.items() if v['rc'] == 1]
     broken_by = [c for c, v in results.items() if v['rc'] == 2]
     out = os.path.join(VERIF, 'seeded', name)
@@ -38,22 +53,38 @@ for name, d in sorted((n, os.path.join(S, n)) for S in SRCS if os.path.isdir(S) 
         if os.path.exists(os.path.join(d, f)) and os.path.abspath(d) != os.path.abspath(out):
             shutil.copy(os.path.join(d, f), os.path.join(out, f))
     readme = open(os.path.join(d, 'README.txt')).read() if os.path.exists(os.path.join(d, 'README.txt')) else ''
+    san = 'sanitiz' in readme.lower() and 'must be built with' in readme.lower()
     meta = {
         'id': name, 'breaks_property': prop,
         'origin': 'written by an independent sub-agent given only the property text and a scratch worktree; confirmed by tools/confirm_seed.sh in a scratch worktree of /repo',
         'needs_to_manifest': (re.search(r'(?is)(needs?[^\n]*manifest[^\n]*\n(?:.*\n){0,6})', readme) or re.search(r'(?is)(trigger[^\n]*\n(?:.*\n){0,4})', readme) or [None, readme[:600]])[1].strip()[:900],
         'confirmed': {'repo_head_at_confirmation': conf.get('repo_head'), 'patch_applies': conf['applies'], 'library_builds': conf['builds'], 'existing_17_tests_pass': conf['tests_pass'],
                       'demo_rc_without_patch': conf['demo_base_rc'], 'demo_rc_with_patch': conf['demo_patched_rc'],
-                      'how': 'tools/confirm_seed.sh: scratch worktree of /repo HEAD, cmake+ninja build, g++ demo against libsimulator.a, run; git apply patch; rebuild; ctest; rebuild demo; run; worktree removed'},
+                      'how': 'tools/confirm_seed.sh%s: scratch worktree of /repo HEAD, cmake+ninja build, g++ demo against libsimulator.a, run; git apply patch; rebuild; ctest; rebuild demo; run; worktree removed'
+                             % (' with SAN=1 (library, tests and demo built with ASan+UBSan)' if san else '')},
         'checks_run_at_repo_head': head,
         'caught_by': caught_by, 'analysis_broken_in': broken_by,
         'own_property_check': {'rc': results.get(prop, {}).get('rc'), 'reports': results.get(prop, {}).get('reports')} if prop in results else 'property not claimed',
         'other_checks_reporting': {c: results[c]['reports'][:2] for c in caught_by if c != prop},
     }
     json.dump(meta, open(os.path.join(out, 'meta.json'), 'w'), indent=1)
-    rows.append((name, prop, results.get(prop, {}).get('rc'), caught_by, broken_by))
-    print(name, 'own:', results.get(prop, {}).get('rc'), 'caught_by:', caught_by, 'broken:', broken_by, flush=True)
-with open(os.path.join(VERIF, 'seeded', 'MATRIX.md'), 'w') as f:
-    f.write('# Seeded changes vs checks (repo HEAD %s)\n\n| seed | property | own check | caught by | analysis-broken in |\n|---|---|---|---|---|\n' % head)
-    for name, prop, rc, cb, bb in rows:
-        f.write('| %s | %s | %s | %s | %s |\n' % (name, prop, {1: 'VIOLATION', 0: 'missed', 2: 'exit 2'}.get(rc, rc), ', '.join(cb) or '-', ', '.join(bb) or '-'))
+    return (name, prop, results.get(prop, {}).get('rc'), caught_by, broken_by, '')
+
+
+if __name__ == '__main__':
+    todo = []
+    for name, d in sorted((n, os.path.join(S, n)) for S in SRCS if os.path.isdir(S) for n in os.listdir(S)):
+        if not os.path.isdir(d) or not os.path.exists(os.path.join(d, 'confirm.json')) or name in SKIP:
+            continue
+        todo.append((name, d))
+    rows = []
+    with Pool(int(os.environ.get('SEED_JOBS', '6'))) as pool:
+        for row in pool.imap(one, todo):
+            rows.append(row)
+            print(row[0], 'own:', row[2], 'caught_by:', row[3], 'broken:', row[4], row[5], flush=True)
+    # merge with rows of stored seeds not re-run this time
+    with open(os.path.join(VERIF, 'seeded', 'MATRIX.md'), 'w') as f:
+        f.write('# Seeded changes vs checks (repo HEAD %s)\n\nEach seed was applied to a scratch copy of /repo and all %d checks were run on it. '
+                '"own check" is the check of the property the seed was written against.\n\n| seed | property | own check | caught by | analysis-broken in |\n|---|---|---|---|---|\n' % (head, len(claimed)))
+        for name, prop, rc, cb, bb, note in rows:
+            f.write('| %s | %s | %s | %s | %s |\n' % (name, prop, {1: 'VIOLATION', 0: 'missed', 2: 'exit 2'}.get(rc, note or rc), ', '.join(cb) or '-', ', '.join(bb) or '-'))
